@@ -62,6 +62,14 @@ func c02ScriptListShared(k int) []byte {
 }
 
 var c02Families = []c02Family{
+	{"GPOS: pair adjustment format 2 without any value (both value formats 0) and k x k classes: the class records take no bytes", "gtab.Read/GPOS",
+		func(k int) []byte {
+			// subtable: format 2, coverage offset, value formats 0 / 0, class definition offsets, class counts
+			sub := be16(2, 16, 0, 0, 22, 22, k, k)
+			sub = append(sub, be16(1, 1, 1)...)    // coverage: glyph 1
+			sub = append(sub, be16(1, 1, 1, 1)...) // class definition format 1: glyph 1 has class 1
+			return c02GtabWrap(2, sub)
+		}, []int{16, 100, 255, 1000, 6000}},
 	{"classdef: format 2 with k pairs of ranges (1..0xFFFE), (0xFFFF..0): the second range of a pair ends before it starts and takes the end of the previous range back to glyph 0", "classdef.Read",
 		func(k int) []byte {
 			out := be16(2, 2*k)
